@@ -6,6 +6,7 @@ import SpoxModel.Props.C11
 #print axioms C11.emit_slots_present
 #print axioms C11.slot_position
 #print axioms C11.emit_slots_custom
+#print axioms C11.emit_identity_free
 #print axioms C11.emit_attrs
 #print axioms C11.table_conforms
 #print axioms C11.entryOK_sound
